@@ -731,7 +731,9 @@ impl convert::TryFrom<XmlNode> for Rc<info::XmlItem> {
             XmlNode::Namespace(v) => Rc::new(v.namespace.into()),
             XmlNode::Notation(v) => Rc::new(v.notation.into()),
             XmlNode::PI(v) => Rc::new(v.pi.into()),
-            XmlNode::ExpandedText(_) => unimplemented!("multi text node."),
+            // the merged text of the text-expanded view stands for several items:
+            // it cannot be inserted as one node
+            XmlNode::ExpandedText(_) => return Err(error::DomException::NotSupportErr)?,
             XmlNode::Text(v) => Rc::new(v.data.into()),
         };
         Ok(v)
